@@ -228,6 +228,7 @@ def main():
             print("  broken:", b[:400])
         rc = 1
     cov["broken"] = broken
+    cov["resource_skipped_requests"] = len(corr.SKIPPED)
     if cov.get("input_samples"):
         cov["samples"] = list(cov.get("samples", [])) + cov["input_samples"][:3]
     write_evidence(pid, ev)
